@@ -13,7 +13,8 @@ EXPLANATION = ("R17.1 writer and reader tables agree: the lower-cased Display na
                "site reachable from parse / from_toml / to_toml / Display / TryFrom other than the is_empty-guarded index; R17.3 parse returns Ok only "
                "on the `no error text` edge and Err(Parse(text, spec)) otherwise; a segment that produced an error text is never pushed to the result. R17.1 also (rows): every entry with a module name is written on every path, whatever else the path examines."
                " R17.1 also (rows of parse): every pushed level is the result of parse_level_filter or the documented `all levels` of a bare name; every stored module name is a piece of the input (split / trim / copy only)."
-               " R17.4 (features specfile*): synchronize_subscriber_with_specfile only reads an existing file and activates from_toml of its content; a missing file is created with create_new and receives to_toml(initial specification); nothing is activated in that case.")
+               " R17.4 (features specfile*): synchronize_subscriber_with_specfile only reads an existing file and activates from_toml of its content; a missing file is created with create_new and receives to_toml(initial specification); nothing is activated in that case."
+               " R17.5 LogSpecBuilder, the programmatic twin of the text form: default / module / remove perform exactly one map operation on the documented key with the given level; insert_modules_from / from_module_filters insert every given filter with its own name and level.")
 ASSUMPTIONS = ["Display of log::LevelFilter prints OFF/ERROR/WARN/INFO/DEBUG/TRACE (log crate)", "toml and regex crates"]
 NOT_DECIDED = ["semantic equivalence of the re-parsed specification for all specifications and strings", "what counts as malformed", "toml/regex behaviour"]
 FLOORS = {'R17.1': 12, 'R17.2': 1, 'R17.3': 3}
@@ -84,7 +85,60 @@ def specfile_sync(R, ctx, rule='R17.4'):
             f"synchronize_subscriber_with_specfile: {bad}", where=b.loc())
 
 
+def spec_builder(R, ctx, rule='R17.5'):
+    """LogSpecBuilder is the programmatic twin of the text form: each method performs exactly the documented map operation - default(lf) sets the entry
+    without a module name, module(m, lf) the entry named m, remove(m) deletes that entry and nothing else, insert_modules_from / from_module_filters copy
+    EVERY given filter with its own name and level - so that a specification built in code decides like the text it renders to."""
+    f = ctx.f
+    EFF = [r'HashMap::<K, V, S, A>::(insert|remove|entry|clear|retain|extend)$']
+    NEXT = r'as std::iter::Iterator>::next$'
+    OR = {'new': ('insert', r'^Option::None$', r'^LevelFilter::Off$'), 'default': ('insert', r'^Option::None$', r'^lf$'),
+          'module': ('insert', r'^Option::Some\(.*module_name.*\)$', r'^lf$'), 'remove': ('remove', r'^&?Option::Some\(.*module_name.*\)$', None)}
+    n = 0
+    for name, (op, key_rx, val_rx) in sorted(OR.items()):
+        b = ctx.body(r'^log_specification::LogSpecBuilder::' + name + '$')
+        bad = None
+        for r in FDI(f, effects=EFF, max_rows=200).run(b.path):
+            if r.undecided:
+                raise CheckError(f"{rule}: LogSpecBuilder::{name} UNDECIDED {r.undecided}")
+            ops = [(e[0].split('::')[-1], [x.replace('$', '') for x in e[1]]) for e in r.effects]
+            if len(ops) != 1 or ops[0][0] != op:
+                bad = f"performs {[o[0] for o in ops]} on the filter map instead of one {op}"
+            elif not re.search(key_rx, ops[0][1][1]) or (val_rx and not re.search(val_rx, ops[0][1][2])):
+                bad = f"{op}s `{ops[0][1][1][:50]}`" + (f" -> `{ops[0][1][2][:30]}`" if val_rx else '') + " instead of the documented entry"
+        n += 1
+        R.check(rule, f"{b.path}|map-operation", not bad, f"one {op} of the documented key", f"LogSpecBuilder::{name} {bad}", where=b.loc())
+    for name, src in (('insert_modules_from', 'other'), ('from_module_filters', 'module_filters')):
+        b = ctx.body(r'^log_specification::LogSpecBuilder::' + name + '$')
+        bad = None
+        lens = set()
+        for r in FDI(f, effects=EFF + [NEXT], max_rows=400, loop_k=2).run(b.path):
+            if r.undecided:
+                raise CheckError(f"{rule}: LogSpecBuilder::{name} UNDECIDED {r.undecided}")
+            nx = [e for e in r.effects if e[0].split('::')[-1] == 'next']
+            some = [e for e in nx if r.get(f"variant({e[0]}#{e[2].get('n')})") == 'Some']
+            ins = [e for e in r.effects if e[0].endswith('::insert')]
+            oth = [e for e in r.effects if re.search(EFF[0], e[0]) and not e[0].endswith('::insert')]
+            if nx and r.get(f"variant({nx[-1][0]}#{nx[-1][2].get('n')})") != 'None':
+                bad = "stops before the given filters are exhausted"
+            elif len(ins) != len(some) or oth:
+                bad = f"{len(some)} filters given, {len(ins)} inserted" + (f", also {oth[0][0].split('::')[-1]}" if oth else '')
+            else:
+                for e_s, e_i in zip(some, ins):
+                    k = f"next#{e_s[2].get('n')}"
+                    key, val = r.long(e_i[1][1]), r.long(e_i[1][2])
+                    if k not in key or 'module_name' not in key or k not in val or 'level_filter' not in val:
+                        bad = f"inserts `{key[-50:]}` -> `{val[-40:]}`, not the name and level of the filter just read"
+            lens.add(len(some))
+        if not bad and not {0, 1, 2} <= lens:
+            raise CheckError(f"{rule}: LogSpecBuilder::{name}: loop not recognised ({sorted(lens)})")
+        n += 1
+        R.check(rule, f"{b.path}|copies-every-filter", not bad, "every given filter is inserted with its own name and level", f"LogSpecBuilder::{name} {bad}", where=b.loc())
+
+
 def run(R, ctx):
+    R.rule('R17.5', 'TABLE(LogSpecBuilder methods): one documented map operation each; bulk methods copy every filter')
+    spec_builder(R, ctx)
     R.rule('R17.4', 'TABLE(start with a specfile): existing file read and activated, missing file created with the initial specification')
     specfile_sync(R, ctx)
     f, cg = ctx.f, ctx.cg
